@@ -18,7 +18,14 @@ type MetaData struct {
 }
 
 // CopyNew returns a copy of the target.
+// The scale is copied deeply: the returned [MetaData] shares no memory with the target.
 func (m MetaData) CopyNew() *MetaData {
+	var value big.Float
+	value.Copy(&m.Scale.Value)
+	m.Scale.Value = value
+	if m.Scale.Mod != nil {
+		m.Scale.Mod = new(big.Int).Set(m.Scale.Mod)
+	}
 	return &m
 }
 
